@@ -3,7 +3,7 @@
    and rendering of the model's and the Spec's results in the harness's canonical line format
    (harness/src/cmd/cenc.rs, cresp.rs). Not used by any theorem. *)
 From Coq Require Import NArith List Bool Arith String Ascii.
-From Rodbus Require Import Base.Show Base.Outcome Base.Cursor Base.ClientTypes Model.Format Model.Range Model.ClientRequest Model.ClientPaths
+From Rodbus Require Import Base.Show Base.Outcome Base.Cursor Base.ClientTypes Model.Format Model.Range Model.ClientRequest Model.ClientPaths Model.ClientSession
   Spec.ClientCodecSpec Gen.ClientTables.
 Import ListNotations.
 Local Open Scope string_scope.
@@ -99,6 +99,15 @@ Definition run_enc (x : enc_case) : string :=
        (if within_limits_b call
         then "SENT " ++ show_bytes (if tcp then ref_encode_tcp tx uid call else ref_encode_rtu uid call)
         else "REJECT").
+
+(* ---- C03 over a session: (tcp?, [(style, kind, unit, start, count/value, values)]) with struct-literal
+   ranges; the whole wire log of the model and of the Spec ---- *)
+Definition session_case := (bool * list (N * N * N * N * N * vals))%type.
+Definition run_session_case (x : session_case) : string :=
+  let '(tcp, l) := x in
+  let calls := map (fun y => let '(style, kind, uid, s, c, v) := y in (path_of style, uid, mk_call kind s c v)) l in
+  both (show_list show_bytes "+" (session_wire (framing_of tcp) 0 calls))
+       (show_list show_bytes "+" (ref_session_wire tcp 0 (map (fun z => (snd (fst z), snd z)) calls))).
 
 (* ---- C04: (kind, start, count/value, reply pdu); the request is built as the API builds it.
    The PDU is passed as (length, big-endian number) - one hexadecimal literal parses much faster
